@@ -3,7 +3,12 @@
 // lemma quantified over *every* sequence that is pointwise the expected one (triggered on the terms
 // `sum_req(s)` / `spec_sum(s)` that the call to `sum` introduces) lets the solver pick the anonymous
 // sequence itself.
-pub open spec fn len_ok(s: Seq<NodeIdx>) -> bool { s.len() <= 0x2_0000 }
+/// A-len: the nodes of a well-formed tour are pairwise distinct (strictly increasing start times) and
+/// there are at most 2^16 service and 2^16 maintenance indices (Idx = u16), so a tour has at most
+/// 2^17 + 2 nodes; operations take this as a stated precondition on their inputs (`tour_len_ok`), the
+/// lemmas work up to twice that (`len_ok`) so that a tour + an inserted path is covered.
+pub open spec fn tour_len_ok(s: Seq<NodeIdx>) -> bool { s.len() <= 0x2_0002 }
+pub open spec fn len_ok(s: Seq<NodeIdx>) -> bool { s.len() <= 0x4_0004 }
 
 pub open spec fn is_dist_of_nodes(net: &Network, nodes: Seq<NodeIdx>, s: Seq<Distance>) -> bool {
     s.len() == nodes.len() && forall|i: int| 0 <= i < s.len() ==> #[trigger] s[i] == net.sp_node(nodes[i]).sp_travel_distance()
@@ -23,7 +28,7 @@ pub proof fn lemma_service_distance_sum(net: &Network, nodes: Seq<NodeIdx>)
             assert(net.nodes@.contains_key(nodes[i]));
         }
         lemma_isum_bounds(v, 0, 0x100_0000_0000);
-        assert(0x100_0000_0000 * v.len() <= u64::MAX) by (nonlinear_arith) requires v.len() <= 0x2_0000;
+        assert(0x100_0000_0000 * v.len() <= u64::MAX) by (nonlinear_arith) requires v.len() <= 0x4_0004;
     }
 }
 
@@ -69,7 +74,7 @@ pub proof fn lemma_useful_duration_sum(net: &Network, nodes: Seq<NodeIdx>)
         assert(s.map_values(|d: Duration| tval(d)) =~= nodes.map_values(net.f_node_dur())) by {
             assert forall|i: int| 0 <= i < s.len() implies tval(s[i]) == (net.f_node_dur())(nodes[i]) by { lemma_node_facts(net, nodes[i]); }
         }
-        assert(0x1000_0000 * nodes.len() <= u64::MAX) by (nonlinear_arith) requires nodes.len() <= 0x2_0000;
+        assert(0x1000_0000 * nodes.len() <= u64::MAX) by (nonlinear_arith) requires nodes.len() <= 0x4_0004;
     }
 }
 
@@ -139,7 +144,7 @@ pub proof fn lemma_dead_head_distance_sum(net: &Network, nodes: Seq<NodeIdx>)
             lemma_leg_facts(net, nodes[i], nodes[i + 1]);
         }
         lemma_isum_bounds(v, 0, 0x100_0000_0000);
-        assert(0x100_0000_0000 * v.len() <= u64::MAX) by (nonlinear_arith) requires v.len() <= 0x2_0000;
+        assert(0x100_0000_0000 * v.len() <= u64::MAX) by (nonlinear_arith) requires v.len() <= 0x4_0004;
     }
 }
 
@@ -155,9 +160,9 @@ pub open spec const LEG_COST_MAX: int = 0x1fff_e000_0000;
 pub proof fn lemma_cost_bounds(net: &Network, nodes: Seq<NodeIdx>)
     requires net.wf(), all_in_net(net, nodes), len_ok(nodes),
     ensures
-        0 <= nsum(nodes, net.f_node_cost()) <= NODE_COST_MAX * nodes.len() <= 0x2000_0000_0000_0000,
-        0 <= psum(nodes, net.f_leg_cost()) <= LEG_COST_MAX * nodes.len() <= 0x4000_0000_0000_0000,
-        0 <= net.spec_costs(nodes) <= 0x6000_0000_0000_0000,
+        0 <= nsum(nodes, net.f_node_cost()) <= NODE_COST_MAX * nodes.len() <= 0x4000_0000_0000_0000,
+        0 <= psum(nodes, net.f_leg_cost()) <= LEG_COST_MAX * nodes.len() <= 0x8000_0000_0000_0000,
+        0 <= net.spec_costs(nodes) <= 0xC000_0000_0000_0000,
 {
     assert forall|i: int| 0 <= i < nodes.len() implies 0 <= #[trigger] (net.f_node_cost())(nodes[i]) <= NODE_COST_MAX by {
         lemma_node_facts(net, nodes[i]);
@@ -169,8 +174,8 @@ pub proof fn lemma_cost_bounds(net: &Network, nodes: Seq<NodeIdx>)
     }
     lemma_psum_nonneg(nodes, net.f_leg_cost(), LEG_COST_MAX);
     let n = nodes.len() as int;
-    assert(NODE_COST_MAX * n <= 0x2000_0000_0000_0000 && LEG_COST_MAX * n <= 0x4000_0000_0000_0000) by (nonlinear_arith)
-        requires 0 <= n <= 0x2_0000, NODE_COST_MAX == 0x1000_0000 * 0xffff, LEG_COST_MAX == 2 * 0x1000_0000 * 0xffff;
+    assert(NODE_COST_MAX * n <= 0x4000_0000_0000_0000 && LEG_COST_MAX * n <= 0x8000_0000_0000_0000) by (nonlinear_arith)
+        requires 0 <= n <= 0x4_0004, NODE_COST_MAX == 0x0fff_f000_0000, LEG_COST_MAX == 0x1fff_e000_0000;
 }
 pub proof fn lemma_cost_sums(net: &Network, nodes: Seq<NodeIdx>)
     requires net.wf(), all_in_net(net, nodes), len_ok(nodes),
@@ -188,5 +193,130 @@ pub proof fn lemma_cost_sums(net: &Network, nodes: Seq<NodeIdx>)
     assert forall|s: Seq<u64>| is_legcost_of_nodes(net, nodes, s) implies
         <u64 as VSum<u64>>::sum_req(s) && (<u64 as VSum<u64>>::spec_sum(s)) as int == psum(nodes, net.f_leg_cost()) by {
         assert(s.map_values(|x: u64| x as int) =~= legs(nodes, net.f_leg_cost()));
+    }
+}
+
+/// all cached figures of `[x] + tail` in terms of those of `tail` (and symmetric for `head + [x]`)
+pub proof fn lemma_sums_cons(net: &Network, x: NodeIdx, tail: Seq<NodeIdx>)
+    ensures
+        nsum(seq![x] + tail, net.f_node_dur()) == net.node_dur(x) + nsum(tail, net.f_node_dur()),
+        nsum(seq![x] + tail, net.f_node_dist()) == net.node_dist(x) + nsum(tail, net.f_node_dist()),
+        nsum(seq![x] + tail, net.f_node_cost()) == net.node_cost(x) + nsum(tail, net.f_node_cost()),
+        tail.len() > 0 ==> psum(seq![x] + tail, net.f_leg_dist()) == net.leg_dist(x, tail[0]) + psum(tail, net.f_leg_dist()),
+        tail.len() > 0 ==> psum(seq![x] + tail, net.f_leg_cost()) == net.leg_cost(x, tail[0]) + psum(tail, net.f_leg_cost()),
+{
+    let one = seq![x];
+    lemma_nsum_append(one, tail, net.f_node_dur());
+    lemma_nsum_append(one, tail, net.f_node_dist());
+    lemma_nsum_append(one, tail, net.f_node_cost());
+    lemma_psum_append(one, tail, net.f_leg_dist());
+    lemma_psum_append(one, tail, net.f_leg_cost());
+    assert(one.map_values(net.f_node_dur()) =~= seq![net.node_dur(x)]);
+    assert(one.map_values(net.f_node_dist()) =~= seq![net.node_dist(x)]);
+    assert(one.map_values(net.f_node_cost()) =~= seq![net.node_cost(x)]);
+    lemma_isum_one(net.node_dur(x));
+    lemma_isum_one(net.node_dist(x));
+    lemma_isum_one(net.node_cost(x));
+    assert(legs(one, net.f_leg_dist()) =~= Seq::<int>::empty());
+    assert(legs(one, net.f_leg_cost()) =~= Seq::<int>::empty());
+}
+pub proof fn lemma_sums_snoc(net: &Network, head: Seq<NodeIdx>, x: NodeIdx)
+    ensures
+        nsum(head + seq![x], net.f_node_dur()) == nsum(head, net.f_node_dur()) + net.node_dur(x),
+        nsum(head + seq![x], net.f_node_dist()) == nsum(head, net.f_node_dist()) + net.node_dist(x),
+        nsum(head + seq![x], net.f_node_cost()) == nsum(head, net.f_node_cost()) + net.node_cost(x),
+        head.len() > 0 ==> psum(head + seq![x], net.f_leg_dist()) == psum(head, net.f_leg_dist()) + net.leg_dist(head.last(), x),
+        head.len() > 0 ==> psum(head + seq![x], net.f_leg_cost()) == psum(head, net.f_leg_cost()) + net.leg_cost(head.last(), x),
+{
+    let one = seq![x];
+    lemma_nsum_append(head, one, net.f_node_dur());
+    lemma_nsum_append(head, one, net.f_node_dist());
+    lemma_nsum_append(head, one, net.f_node_cost());
+    lemma_psum_append(head, one, net.f_leg_dist());
+    lemma_psum_append(head, one, net.f_leg_cost());
+    assert(one.map_values(net.f_node_dur()) =~= seq![net.node_dur(x)]);
+    assert(one.map_values(net.f_node_dist()) =~= seq![net.node_dist(x)]);
+    assert(one.map_values(net.f_node_cost()) =~= seq![net.node_cost(x)]);
+    lemma_isum_one(net.node_dur(x));
+    lemma_isum_one(net.node_dist(x));
+    lemma_isum_one(net.node_cost(x));
+    assert(legs(one, net.f_leg_dist()) =~= Seq::<int>::empty());
+    assert(legs(one, net.f_leg_cost()) =~= Seq::<int>::empty());
+}
+/// visits-maintenance is unaffected by exchanging a depot for a depot
+pub proof fn lemma_vm_update_depot(net: &Network, s: Seq<NodeIdx>, i: int, x: NodeIdx)
+    requires 0 <= i < s.len(), net.sp_node(s[i]).sp_is_depot(), net.sp_node(x).sp_is_depot(),
+    ensures net.spec_visits_maintenance(s.update(i, x)) == net.spec_visits_maintenance(s),
+{
+    let t = s.update(i, x);
+    if net.spec_visits_maintenance(s) {
+        let k = choose|k: int| 0 <= k < s.len() && #[trigger] net.sp_node(s[k]) is Maintenance;
+        assert(t[k] == s[k]);
+        assert(net.sp_node(t[k]) is Maintenance);
+    }
+    if net.spec_visits_maintenance(t) {
+        let k = choose|k: int| 0 <= k < t.len() && #[trigger] net.sp_node(t[k]) is Maintenance;
+        assert(t[k] == s[k]);
+        assert(net.sp_node(s[k]) is Maintenance);
+    }
+}
+/// a depot costs nothing, lasts no time and covers no distance
+pub proof fn lemma_depot_zero(net: &Network, x: NodeIdx)
+    requires net.wf(), net.has(x), net.sp_node(x).sp_is_depot(),
+    ensures net.node_dur(x) == 0, net.node_dist(x) == 0, net.node_cost(x) == 0,
+{
+    assert(net.node_rate(x) == 0);
+    let d = net.secs_or_planning(net.sp_node(x).sp_duration());
+    assert(d * 0 == 0) by (nonlinear_arith);
+}
+
+/// the finite part of the dead-head legs is small; the encoded sum is either >= DBIG or that finite part
+pub proof fn lemma_dhd_bounds(net: &Network, nodes: Seq<NodeIdx>)
+    requires net.wf(), all_in_net(net, nodes), len_ok(nodes),
+    ensures 0 <= psum(nodes, net.f_leg_dist()),
+        psum(nodes, net.f_leg_dist()) < DBIG ==> psum(nodes, net.f_leg_dist()) <= 0x100_0000_0000 * nodes.len() <= 0x2000_0000_0000_0000,
+        0 <= nsum(nodes, net.f_node_dist()) <= 0x100_0000_0000 * nodes.len() <= 0x2000_0000_0000_0000,
+{
+    let g = net.f_leg_dist();
+    let l = legs(nodes, g);
+    assert forall|i: int| 0 <= i < l.len() implies 0 <= #[trigger] l[i] by {
+        assert(net.has(nodes[i]) && net.has(nodes[i + 1]));
+        lemma_leg_facts(net, nodes[i], nodes[i + 1]);
+    }
+    lemma_isum_lower(l);
+    if isum(l) < DBIG {
+        lemma_isum_small_items(l, DBIG);
+        assert forall|i: int| 0 <= i < l.len() implies 0 <= #[trigger] l[i] <= 0x100_0000_0000 by {
+            assert(net.has(nodes[i]) && net.has(nodes[i + 1]));
+            lemma_leg_facts(net, nodes[i], nodes[i + 1]);
+        }
+        lemma_isum_bounds(l, 0, 0x100_0000_0000);
+    }
+    let n = nodes.len() as int; let m = l.len() as int;
+    assert(0x100_0000_0000 * m <= 0x100_0000_0000 * n <= 0x2000_0000_0000_0000) by (nonlinear_arith) requires 0 <= m <= n <= 0x4_0004;
+    assert forall|i: int| 0 <= i < nodes.len() implies 0 <= #[trigger] (net.f_node_dist())(nodes[i]) <= 0x100_0000_0000 by {
+        lemma_node_facts(net, nodes[i]);
+    }
+    lemma_nsum_nonneg(nodes, net.f_node_dist(), 0x100_0000_0000);
+}
+pub proof fn lemma_isum_lower(s: Seq<int>)
+    requires forall|i: int| 0 <= i < s.len() ==> 0 <= #[trigger] s[i],
+    ensures 0 <= isum(s),
+    decreases s.len(),
+{
+    if s.len() > 0 { lemma_isum_lower(s.drop_last()); }
+}
+/// a non-negative sum below a bound has every item below that bound
+pub proof fn lemma_isum_small_items(s: Seq<int>, b: int)
+    requires forall|i: int| 0 <= i < s.len() ==> 0 <= #[trigger] s[i], isum(s) < b,
+    ensures forall|i: int| 0 <= i < s.len() ==> #[trigger] s[i] < b,
+    decreases s.len(),
+{
+    if s.len() > 0 {
+        lemma_isum_lower(s.drop_last());
+        lemma_isum_small_items(s.drop_last(), b);
+        assert forall|i: int| 0 <= i < s.len() implies #[trigger] s[i] < b by {
+            if i < s.len() - 1 { assert(s.drop_last()[i] == s[i]); }
+        }
     }
 }
